@@ -138,6 +138,17 @@ CHECKS["C15"] = {
     ],
 }
 
+CHECKS["C16"] = {
+    "pkg": "c16",
+    "level": "exploration",
+    "technique": "stateful property-based testing (rapid state machine) with a harness-owned flush function (flush duration relative to later writes is an owned schedule) against a three-level map model; transaction-level part on the simulated cluster",
+    "level_text": "The harness flush function parks until the machine releases it, so reads and writes during a running flush, flush failures and their surfacing point are generated, not hoped for. Every read is compared with the mutable>flushing>flushed model, every flush call's content with the writes since the previous flush, generations and single-flight are asserted. The commit/rollback clause (all flushed locks of the touched range reach the primary's outcome) is checked at transaction level on the simulated cluster (TestPipelinedTxn).",
+    "level_note": "Trusted: failpoints pipelinedMemDBMinFlushKeys/Size only lower the thresholds. Iteration APIs are unsupported by the pipelined buffer by design and not exercised.",
+    "tests": [
+        {"name": "TestPipelinedBuffer", "quick": 3000, "thorough": 30000, "shards": 8},
+    ],
+}
+
 # properties without a registered check, with the reason (kept current by hand)
 NOT_CLAIMED = {}
 
